@@ -84,8 +84,10 @@ class Opt(object):
 
 
 def degrade(k):
-  if k == 'NONE':
+  if k in ('NONE', 'C:T', 'C:F'):
     return 'TR'
+  if isinstance(k, tuple):
+    return (k[0],) + tuple(degrade(x) for x in k[1:])
   if isinstance(k, Opt):
     return 'WO' if is_wire(k.k) else 'TR'
   return k
@@ -106,6 +108,10 @@ def join(a, b):
     return b
   if b is None:
     return a
+  if a in ('C:T', 'C:F') or b in ('C:T', 'C:F'):
+    a = 'TR' if a in ('C:T', 'C:F') else a
+    b = 'TR' if b in ('C:T', 'C:F') else b
+    return join(a, b)
   if a == 'NONE' or b == 'NONE' or isinstance(a, Opt) or isinstance(b, Opt):
     ia = None if a == 'NONE' else (a.k if isinstance(a, Opt) else a)
     ib = None if b == 'NONE' else (b.k if isinstance(b, Opt) else b)
@@ -115,6 +121,11 @@ def join(a, b):
     if isinstance(inner, tuple) or is_wire(inner):
       return Opt(inner)
     return inner
+  # an empty tuple / list literal joined with a list kind is that list kind (nothing to iterate in the empty case)
+  if a == ('T',) and b in ('WOL', 'WSL', 'WBL'):
+    return b
+  if b == ('T',) and a in ('WOL', 'WSL', 'WBL'):
+    return a
   if isinstance(a, tuple) and isinstance(b, tuple) and len(a) == len(b):
     return ('T',) + tuple(join(x, y) for x, y in zip(a[1:], b[1:]))
   if {a, b} == {'FF', 'F?'}:
@@ -159,6 +170,15 @@ class Effects(object):
     self.loop_problems = []    # (fn, node, message)
     self.closers = []          # (fn, call)
     self.analysed = set()
+    # exception classes defined in the repository: <name> -> <first base that is (transitively) a known exception>
+    for c in self.repo.all_classes():
+      if c.name in PARENT:
+        continue
+      for b in c.base_names:
+        bn = b.split('.')[-1]
+        if bn in PARENT or any(k.name == bn for k in self.repo.all_classes() if k is not c and k.base_names):
+          PARENT.setdefault(c.name, bn)
+          break
     self._memo = {}
     self._ret_memo = {}
     self._rets = []
@@ -204,17 +224,38 @@ class Effects(object):
     return self._ret_memo.get((fn.key, fn.variant, tuple(map(str, kinds))))
 
   # ------------------------------------------------------------ statements
+  MAX_WORLDS = 8
+
   def run(self, stmts, env, fn):
-    """returns (raised list, falls_through)"""
+    """returns (raised list, falls_through).  Within one statement list the outcomes of an if / try are kept apart
+    (up to MAX_WORLDS alternative environments), so that a flag or a tagged tuple set in one branch and tested later in
+    the same block is followed branch by branch; at the end of the block the survivors are joined into ``env``."""
     out = []
+    worlds = [env]
     for s in stmts:
-      r, ft = self.stmt(s, env, fn)
-      out.extend(r)
-      if not ft:
+      nxt = []
+      for w in worlds:
+        if isinstance(s, (ast.If, ast.Try)) and not getattr(s, 'finalbody', None) and len(worlds) < self.MAX_WORLDS:
+          r, outs = self.stmt(s, w, fn, split=True)
+          out.extend(r)
+          nxt.extend(e for e, ft in outs if ft)
+        else:
+          r, ft = self.stmt(s, w, fn)
+          out.extend(r)
+          if ft:
+            nxt.append(w)
+      if len(nxt) > self.MAX_WORLDS:
+        m = dict(nxt[0])
+        self.merge(m, [(e, True) for e in nxt])
+        nxt = [m]
+      worlds = nxt
+      if not worlds:
         return out, False
+    if not (len(worlds) == 1 and worlds[0] is env):
+      self.merge(env, [(e, True) for e in worlds])
     return out, True
 
-  def stmt(self, s, env, fn):
+  def stmt(self, s, env, fn, split=False):
     R = []
     if isinstance(s, ast.Expr):
       _, r = self.ev(s.value, env, fn)
@@ -253,10 +294,12 @@ class Effects(object):
       R.extend(r)
       e1, e2 = dict(env), dict(env)
       self.refine(s.test, e1, e2)
-      r1, ft1 = self.run(s.body, e1, fn)
-      r2, ft2 = self.run(s.orelse, e2, fn)
+      r1, ft1 = ([], False) if e1.pop('__dead__', False) else self.run(s.body, e1, fn)
+      r2, ft2 = ([], False) if e2.pop('__dead__', False) else self.run(s.orelse, e2, fn)
       R.extend(r1)
       R.extend(r2)
+      if split:
+        return R, [(e1, ft1), (e2, ft2)]
       self.merge(env, [(e1, ft1), (e2, ft2)])
       return R, ft1 or ft2
     if isinstance(s, (ast.For, ast.AsyncFor)):
@@ -337,6 +380,8 @@ class Effects(object):
         rh, fth = self.run(h.body, he, fn)
         remaining.extend(rh)
         outs.append((he, fth))
+      if split and not s.finalbody:
+        return remaining, outs
       self.merge(env, outs)
       ft = any(f for _, f in outs)
       if s.finalbody:
@@ -433,6 +478,16 @@ class Effects(object):
       if isinstance(cur, Opt):
         yes[v] = 'NONE'
         no[v] = cur.k
+      elif cur == 'NONE':
+        no['__dead__'] = True
+      elif isinstance(cur, tuple) or cur in ('WS', 'WB', 'WSB', 'F?', 'FF', 'INT', 'N?', 'WSL', 'WBL', 'WOL', 'C:T', 'C:F'):
+        yes['__dead__'] = True          # a value of a known non-None kind
+      return
+    if isinstance(t, ast.Name) and e_true.get(t.id, e_false.get(t.id)) in ('C:T', 'C:F', 'NONE'):
+      cur = e_true.get(t.id, e_false.get(t.id))
+      truthy = cur == 'C:T'
+      # the branch that contradicts the constant cannot be taken
+      (e_false if truthy != neg else e_true)['__dead__'] = True
       return
     if isinstance(t, ast.Name) and isinstance(e_true.get(t.id, e_false.get(t.id)), Opt):
       cur = e_true.get(t.id, e_false.get(t.id))
@@ -552,6 +607,10 @@ class Effects(object):
       return k
     if isinstance(n, ast.Constant) and n.value is None:
       return 'NONE', R
+    if isinstance(n, ast.Constant) and n.value is True:
+      return 'C:T', R
+    if isinstance(n, ast.Constant) and n.value is False:
+      return 'C:F', R
     if n is None or isinstance(n, ast.Constant):
       return 'TR', R
     if isinstance(n, ast.Name):
@@ -569,7 +628,12 @@ class Effects(object):
         return 'TR', R
       return ('WO' if is_wire(base) else 'TR'), R
     if isinstance(n, ast.Tuple):
-      return ('T',) + tuple(sub(e) for e in n.elts), R
+      ks = []
+      for e in n.elts:
+        k_, r_ = self.ev(e, env, fn, keep_opt=True)
+        R.extend(r_)
+        ks.append(k_)
+      return ('T',) + tuple(ks), R
     if isinstance(n, (ast.List, ast.Set)):
       ks = [sub(e) for e in n.elts]
       if isinstance(n, ast.Set) and any(k in ('WO', 'WOL') for k in ks):
@@ -659,8 +723,10 @@ class Effects(object):
       return 'WS' if any(isinstance(v, ast.FormattedValue) and is_wire(self.ev(v.value, env, fn)[0]) for v in n.values) else 'TR', R
     if isinstance(n, ast.IfExp):
       sub(n.test)
-      kb, rb_ = self.ev(n.body, env, fn, keep_opt=True)
-      ko, ro_ = self.ev(n.orelse, env, fn, keep_opt=True)
+      e1_, e2_ = dict(env), dict(env)
+      self.refine(n.test, e1_, e2_)
+      kb, rb_ = self.ev(n.body, e1_, fn, keep_opt=True)
+      ko, ro_ = self.ev(n.orelse, e2_, fn, keep_opt=True)
       R.extend(rb_)
       R.extend(ro_)
       return join(kb, ko), R
